@@ -29,18 +29,6 @@ theorem concord_idem (L X : List String) : concord L (concord L X) = concord L X
   rw [Bool.eq_iff_iff]
   simp [List.mem_filter, hr]
 
-/-- hypotheses of `static_then_dynamic` (decidable); `σ0` is any list of the right length (only its length is looked at) -/
-def StatDynHyps (S : EinsumS) (env : String → Pts) (sps : List SplitSpec) (L1 : List String) (D : DynSpec) (npre : Nat) (σ0 : List Nat) : Prop :=
-  let outc := concord L1 S.outRanks
-  let A : Cfg := ⟨S.loop.zip S.exts, outc, S.terms, env, σ0⟩
-  let B := applySplits sps A
-  let S1 := partEinsum S B L1
-  SplitsOK sps A ∧ (∀ sp ∈ sps, sp.K ∉ outc) ∧ B.R.Perm (S1.loop.zip S1.exts) ∧ (B.R.map (·.1)).Nodup ∧ σ0.length = outc.length ∧
-  DynHyps D S1 B.env npre
-
-instance (S : EinsumS) (env : String → Pts) (sps : List SplitSpec) (L1 : List String) (D : DynSpec) (npre : Nat) (σ0 : List Nat) :
-    Decidable (StatDynHyps S env sps L1 D npre σ0) := by unfold StatDynHyps; infer_instance
-
 theorem splitsOK_len : ∀ (sps : List SplitSpec) (A : Cfg) (τ : List Nat), τ.length = A.τ.length → SplitsOK sps A →
     SplitsOK sps { A with τ := τ }
   | [], _, _, _, _ => trivial
@@ -66,15 +54,27 @@ theorem applySplits_tau_indep : ∀ (sps : List SplitSpec) (A : Cfg) (τ : List 
     rw [this]
     exact applySplits_tau_indep sps (splitCfg sp A) _
 
-/-- **C03: static splits, then a dynamic occupancy split inside the loops** -/
-theorem static_then_dynamic (S : EinsumS) (env : String → Pts) (sps : List SplitSpec) (L1 : List String) (D : DynSpec) (npre : Nat)
-    (σ0 : List Nat) (h : StatDynHyps S env sps L1 D npre σ0) (τ : List Nat) (hτ : τ.length = σ0.length) :
+/-- the static part of the hypotheses (decidable); `σ0` is any list of the right length (only its length is looked at) -/
+def StaticHyps (S : EinsumS) (env : String → Pts) (sps : List SplitSpec) (L1 : List String) (σ0 : List Nat) : Prop :=
+  let outc := concord L1 S.outRanks
+  let A : Cfg := ⟨S.loop.zip S.exts, outc, S.terms, env, σ0⟩
+  let B := applySplits sps A
+  let S1 := partEinsum S B L1
+  SplitsOK sps A ∧ (∀ sp ∈ sps, sp.K ∉ outc) ∧ B.R.Perm (S1.loop.zip S1.exts) ∧ (B.R.map (·.1)).Nodup ∧ σ0.length = outc.length
+
+instance (S : EinsumS) (env : String → Pts) (sps : List SplitSpec) (L1 : List String) (σ0 : List Nat) :
+    Decidable (StaticHyps S env sps L1 σ0) := by unfold StaticHyps; infer_instance
+
+/-- static splits of ranks that are not output ranks: the statically split Einsum (loop order `L1`) means what the
+    original one means -/
+theorem static_meaning (S : EinsumS) (env : String → Pts) (sps : List SplitSpec) (L1 : List String)
+    (σ0 : List Nat) (h : StaticHyps S env sps L1 σ0) (τ : List Nat) (hτ : τ.length = σ0.length) :
     let B := applySplits sps ⟨S.loop.zip S.exts, concord L1 S.outRanks, S.terms, env, σ0⟩
     let S1 := partEinsum S B L1
-    sumAt τ (runDyn D S1.outRanks (lv S1.outRanks (S1.loop.take npre) (S1.exts.take npre)) (initTerms S1 B.env)) =
+    meaning (S1.loop.zip S1.exts) (concord S1.loop S1.outRanks) S1.terms B.env τ =
       meaning (S.loop.zip S.exts) (concord L1 S.outRanks) S.terms env τ := by
   intro B S1
-  obtain ⟨hsp, hKs, hperm, hndR, hl0, hdyn⟩ := h
+  obtain ⟨hsp, hKs, hperm, hndR, hl0⟩ := h
   let outc := concord L1 S.outRanks
   let A : Cfg := ⟨S.loop.zip S.exts, outc, S.terms, env, σ0⟩
   let Aτ : Cfg := { A with τ := τ }
@@ -83,8 +83,6 @@ theorem static_then_dynamic (S : EinsumS) (env : String → Pts) (sps : List Spl
   have hoτ := applySplits_out sps Aτ hKs
   have hsteps := steps_meaning (applySplits_steps sps Aτ hspτ)
   simp only [Cfg.value] at hsteps
-  rw [dynamic_nest' D S1 B.env npre hdyn τ]
-  -- the meaning of the statically split Einsum is the meaning of the original one
   have hB : B = applySplits sps A := rfl
   have e1 : S1.terms = (applySplits sps Aτ).terms := by rw [hT]; rfl
   have e2 : B.env = (applySplits sps Aτ).env := by rw [hE]
@@ -99,5 +97,24 @@ theorem static_then_dynamic (S : EinsumS) (env : String → Pts) (sps : List Spl
   have := hsteps
   rw [hoτ.2] at this
   rw [this]
+
+/-- hypotheses of `static_then_dynamic` (decidable) -/
+def StatDynHyps (S : EinsumS) (env : String → Pts) (sps : List SplitSpec) (L1 : List String) (D : DynSpec) (npre : Nat) (σ0 : List Nat) : Prop :=
+  let B := applySplits sps ⟨S.loop.zip S.exts, concord L1 S.outRanks, S.terms, env, σ0⟩
+  StaticHyps S env sps L1 σ0 ∧ DynHyps D (partEinsum S B L1) B.env npre
+
+instance (S : EinsumS) (env : String → Pts) (sps : List SplitSpec) (L1 : List String) (D : DynSpec) (npre : Nat) (σ0 : List Nat) :
+    Decidable (StatDynHyps S env sps L1 D npre σ0) := by unfold StatDynHyps; infer_instance
+
+/-- **C03: static splits, then a dynamic occupancy split inside the loops** -/
+theorem static_then_dynamic (S : EinsumS) (env : String → Pts) (sps : List SplitSpec) (L1 : List String) (D : DynSpec) (npre : Nat)
+    (σ0 : List Nat) (h : StatDynHyps S env sps L1 D npre σ0) (τ : List Nat) (hτ : τ.length = σ0.length) :
+    let B := applySplits sps ⟨S.loop.zip S.exts, concord L1 S.outRanks, S.terms, env, σ0⟩
+    let S1 := partEinsum S B L1
+    sumAt τ (runDyn D S1.outRanks (lv S1.outRanks (S1.loop.take npre) (S1.exts.take npre)) (initTerms S1 B.env)) =
+      meaning (S.loop.zip S.exts) (concord L1 S.outRanks) S.terms env τ := by
+  intro B S1
+  rw [dynamic_nest' D S1 B.env npre h.2 τ]
+  exact static_meaning S env sps L1 σ0 h.1 τ hτ
 
 end C03
